@@ -165,6 +165,9 @@ class C06(Prop):
         try:
             got = self.run_real(kind, text, names, sem, io, data=None if dense else data, sig=sig if dense else None)
         except Exception as e:
+            if dense and all(x != x for x in exp.vs):
+                v.skip = 'raised on a completely NaN-tainted formula'
+                return v
             v.bad('raises:' + type(e).__name__, '%s [%s, %s, io=%s]: raised %s: %s' % (
                 text, kind, sem, io, type(e).__name__, e))
             return v
